@@ -258,6 +258,13 @@ impl FsSession {
         self.state.borrow_mut().files.insert(path.to_path_buf(), data);
     }
 
+    /// Renames a file the way a file system does: open handles follow the file, not the name.
+    pub fn rename(&self, from: &Path, to: &Path) {
+        let mut st = self.state.borrow_mut();
+        if let Some(data) = st.files.remove(from) { st.files.insert(to.to_path_buf(), data); }
+        for h in st.handles.values_mut() { if h.path == from { h.path = to.to_path_buf(); } }
+    }
+
     pub fn open_handles(&self) -> usize {
         self.state.borrow().handles.len()
     }
